@@ -3,6 +3,7 @@ package loadbalancer
 import (
 	"bufio"
 	"context"
+	"errors"
 	"fmt"
 	"net"
 	"net/http"
@@ -115,6 +116,10 @@ type healthChecker struct {
 	unhealthyBackends  map[string]int // Maps backend name to failure count
 	unhealthyBackendMu sync.RWMutex
 }
+
+// errBackendFailure tells the circuit breaker that the proxied exchange failed (5xx or
+// unreachable backend). The response has already been relayed and accounted for.
+var errBackendFailure = errors.New("backend request failed")
 
 // LoadBalancer manages the backend servers and implements load balancing
 type LoadBalancer struct {
@@ -624,6 +629,10 @@ func (lb *LoadBalancer) ServeHTTP(w http.ResponseWriter, r *http.Request) {
 		err := lb.circuitBreaker.Execute(func() error {
 			return lb.handleRequest(w, r, startTime)
 		})
+		if err == errBackendFailure {
+			// already answered and recorded by proxyRequest; the breaker counted the failure
+			return
+		}
 		if err != nil {
 			failureCount, successCount, requestCount := lb.circuitBreaker.Counts()
 			logger.Error().
@@ -646,7 +655,7 @@ func (lb *LoadBalancer) ServeHTTP(w http.ResponseWriter, r *http.Request) {
 		}
 	} else {
 		// Execute without circuit breaker
-		if err := lb.handleRequest(w, r, startTime); err != nil {
+		if err := lb.handleRequest(w, r, startTime); err != nil && err != errBackendFailure {
 			logger.Error().Err(err).Msg("request handling failed")
 		}
 	}
@@ -714,6 +723,10 @@ func (lb *LoadBalancer) proxyRequest(backend *Backend, w http.ResponseWriter, r 
 	// Record metrics and handle passive health checks
 	lb.recordRequestMetrics(backend, rw.statusCode, startTime, r)
 
+	// Failed proxied requests are what the circuit breaker counts
+	if rw.statusCode >= 500 {
+		return errBackendFailure
+	}
 	return nil
 }
 
